@@ -56,6 +56,17 @@ impl DecisionTracker {
             None => {
                 self.map.set(decision.variable, decision.value, level);
                 self.stack.push(decision);
+                #[cfg(resolvo_verif)]
+                crate::verif::emit(|| {
+                    use crate::internal::arena::ArenaId;
+                    crate::verif::Event::Assign {
+                        var: decision.variable.to_usize() as u32,
+                        value: decision.value,
+                        level,
+                        why: decision.derived_from.to_usize() as u32 + 1,
+                        tag: crate::verif::take_tag(),
+                    }
+                });
                 Ok(true)
             }
             Some(value) if value == decision.value => Ok(false),
@@ -65,6 +76,8 @@ impl DecisionTracker {
 
     pub(crate) fn undo_until(&mut self, level: u32) {
         if level == 0 {
+            #[cfg(resolvo_verif)]
+            crate::verif::emit(|| crate::verif::Event::Undo { len: 0 });
             self.clear();
             return;
         }
@@ -83,6 +96,10 @@ impl DecisionTracker {
         self.map.reset(decision.variable);
 
         self.propagate_index = self.stack.len();
+        #[cfg(resolvo_verif)]
+        crate::verif::emit(|| crate::verif::Event::Undo {
+            len: self.stack.len() as u32,
+        });
 
         let top_decision = self.stack.last().unwrap();
         (decision, self.map.level(top_decision.variable))
